@@ -4,6 +4,8 @@
 // One translation unit per property (h_sync_c2x.cpp) so the engine compiles in parallel.
 #include <algorithm>
 #include <atomic>
+#include <cstdlib>
+#include <new>
 #include <memory>
 #include <string>
 #include <thread>
@@ -39,13 +41,35 @@ class SpinStart {
     // shared): spin briefly, then yield on every probe
     unsigned spins = 0;
     while (arrived_.load(std::memory_order_relaxed) < parties_) {
-      if (++spins > 64) std::this_thread::yield();
+      ++spins;
+      if (spins > 4000) usleep(50);
+      else if (spins > 64) std::this_thread::yield();
     }
   }
 
  private:
   const int parties_;
   std::atomic<int> arrived_{0};
+};
+
+// Start line for many threads (up to 64 on a shared machine): threads sleep-poll until everybody
+// has arrived (no CPU is burnt while the creator is still spawning threads), then gather in a short
+// bounded spin so that those that are on a CPU leave (nearly) together. Relaxed atomics only.
+class SleepStart {
+ public:
+  explicit SleepStart(int parties) : parties_(parties) {}
+  void arriveAndWait() {
+    arrived_.fetch_add(1, std::memory_order_relaxed);
+    while (arrived_.load(std::memory_order_relaxed) < parties_) usleep(100);
+    stage2_.fetch_add(1, std::memory_order_relaxed);
+    for (unsigned spins = 0; spins < 20000 && stage2_.load(std::memory_order_relaxed) < parties_; ++spins) {
+    }
+  }
+
+ private:
+  const int parties_;
+  std::atomic<int> arrived_{0};
+  std::atomic<int> stage2_{0};
 };
 
 // Poll a state predicate; between polls the thread sleeps, every poll counts as harness progress
@@ -60,6 +84,30 @@ inline bool pollUntil(Pred p, int maxMs) {
     usleep(50);
   }
 }
+
+// Heap object with the type's full alignment (C++14 operator new ignores over-alignment).
+template <typename T>
+class AlignedBox {
+ public:
+  AlignedBox() {
+    size_t a = alignof(T) < sizeof(void*) ? sizeof(void*) : alignof(T);
+    size_t sz = (sizeof(T) + a - 1) / a * a;
+    mem_ = aligned_alloc(a, sz);
+    p_ = new (mem_) T();
+  }
+  AlignedBox(const AlignedBox&) = delete;
+  AlignedBox& operator=(const AlignedBox&) = delete;
+  ~AlignedBox() {
+    p_->~T();
+    free(mem_);
+  }
+  T& operator*() { return *p_; }
+  T* operator->() { return p_; }
+
+ private:
+  void* mem_;
+  T* p_;
+};
 
 inline void dwell(vrt::Rng& r, int maxUs) {
   if (maxUs <= 0) return;
